@@ -5,7 +5,7 @@ _c01 = importlib.util.module_from_spec(_spec); _spec.loader.exec_module(_c01)
 ksjob = _c01.ksjob
 
 META = dict(
-    bounds='channel<int>: unbuffered and buffered (capacity 1), scenarios 2S+1R, 1S(2 values)+1R, 1S+2R, S+R+close; symbolic timeouts (never / finite), cooperative scheduling with symbolic timeout events, <= 8-10 slices',
+    bounds='channel<int>: unbuffered only (the buffered scenarios do not reach a verdict within the memory budget), scenarios 2S+1R, 1S(2 values)+1R, 1S+2R, S+R+close; symbolic timeouts (never / finite), cooperative scheduling with symbolic timeout events, <= 8-10 slices',
     outside='mutex / condition_variable / semaphore internals (contracts here; subject of C01-C03); select(); pre-emption between plain statements of go.h on several vCPUs; more parties or values',
     assumptions=['contract-level sync layer rt/ksync.h (FIFO hand-off mutex, atomic release-and-wait cv, FIFO semaphore)', 'operator new never fails'],
 )
@@ -17,6 +17,5 @@ def jobs(tier):
     J.append(ksjob('unbuf_2s_1r', SRC, 3, 9, ['CAP=0', 'SCEN=0'], desc='unbuffered: 2 senders, 1 receiver', stuck_legal=True, timeout=1500, mem_gb=8))
     if not q: J.append(ksjob('unbuf_2try_2r', SRC, 4, 8, ['CAP=0', 'SCEN=4', 'TRY'], desc='unbuffered: 2 try_send callers, 2 receivers', stuck_legal=True, timeout=1500, mem_gb=10))
     if not q: J.append(ksjob('unbuf_2s_2r', SRC, 4, 10, ['CAP=0', 'SCEN=4'], desc='unbuffered: 2 senders, 2 receivers', stuck_legal=True, timeout=2400, mem_gb=12))
-    J.append(ksjob('buf2_1s2v_2r', SRC, 3, 8, ['CAP=2', 'SCEN=5'], desc='buffered (capacity 2): 1 sender x 2 values, 2 receivers', stuck_legal=True, timeout=1500, mem_gb=8, shims=[], extra_ir2c=['--map', '^@posix_memalign$=verif_memalign']))
-    J.append(ksjob('buf1_1s2v_1r', SRC, 2, 8, ['CAP=1', 'SCEN=1'], desc='buffered (capacity 1): 1 sender x 2 values, 1 receiver', stuck_legal=True, timeout=1500, mem_gb=8, shims=[], extra_ir2c=['--map', '^@posix_memalign$=verif_memalign']))
+    # buffered-channel scenarios (buf1_1s2v_1r, buf2_1s2v_2r with CAP=1/2) exist in the harness but run out of memory (8 GB, 16 min): not registered
     return J
